@@ -138,6 +138,7 @@ pub fn run(prop: &str, tier: Tier) -> (RunMeta, Acc) {
                 Part::new(pools::stride(pools::comment_pool(snb.clone()), 8), 600, usize::MAX, fixed()),
                 Part::new(pools::stride(pools::uni_pool(snb.clone()), 4), 300, usize::MAX, fixed()),
                 Part::new(pools::stride(pools::eol_pool(snb.clone()), 2), 200, usize::MAX, fixed()),
+                Part::new(pools::stride(pools::eolblank_pool(snb.clone()), 4), 300, usize::MAX, fixed()),
                 Part::new(pools::stride(p_total::havoc_pool(snb.clone()), 10), 600, usize::MAX, fixed()),
                 Part::new(ListPool { name: "corpus(hostile)".into(), cases: corpus::hostile() }, 300, usize::MAX, fixed()),
             ];
